@@ -1722,6 +1722,10 @@ class Engine:
                     return NativeFn("dict.__init__", dict_init)
                 return NativeFn("object.__init__", lambda *a, **k: None)
             raise PyRaise(AttributeError, (name,))
+        if is_num(o) or (isinstance(o, (int, float)) and not isinstance(o, bool)):
+            h = self.policy.get(("num_method", name))
+            if h is not None:
+                return NativeFn(f"number.{name}", lambda *a, **k: h(self, o, *a, **k))
         if is_obj(o):
             self.attr_reads.add((str(o), name))          # which attributes of opaque objects the code reads (frame obligations)
             ov = self.path.__dict__.get("opaque_attrs", {}).get((o.get_id(), name))
@@ -1844,6 +1848,9 @@ class Engine:
         return z3.Const("OPTIMIZER", Obj)
 
     def ext_attr(self, o, name):
+        v = self.policy.get(("ext_value", o.path + "." + name), Ext)
+        if v is not Ext:
+            return v             # a library constant the contract gives a value to (e.g. numpy.pi)
         return Ext(o.path + "." + name)
 
     def opaque_attr(self, o, name):
